@@ -51,7 +51,7 @@ var hashAndDecodeRoots = append(append([]string{}, decodeRoots...), `^imagehash\
 var propCfgs = map[string]*PropCfg{
 	"C01": {ID: "C01", Level: "proof", Safety: true, Roots: decodeRoots, Tagged: true, Scope: c01Scope, Design: "DESIGN.md 5 C01"},
 	"C02": {ID: "C02", Level: "proof", Variant: true, Roots: decodeRoots, Tagged: true, Scope: c01Scope, Design: "DESIGN.md 5 C02"},
-	"C03": {ID: "C03", Level: "proof", Tagged: true, Design: "DESIGN.md 5 C03"},
+	"C03": {ID: "C03", Level: "proof", Tagged: true, Passes: []string{"reads-frame"}, Design: "DESIGN.md 5 C03"},
 	"C04": {ID: "C04", Level: "proof", Tagged: true, DFRoots: hashAndDecodeRoots, Passes: []string{"globals", "pool-discipline", "pool-escape", "pool-fill"}, Design: "DESIGN.md 5 C04"},
 	"C05": {ID: "C05", Level: "other", Tagged: true, DFRoots: hashAndDecodeRoots, Passes: []string{"globals", "pool-discipline"}, Design: "DESIGN.md 5 C05",
 		Explain: "Deductive verification does not enumerate schedules. What is decided is a discipline that implies data-race freedom for this code base (meta-theorem, stated not proved: lockset + exclusive ownership => DRF): (a) inventory of every package-level variable touched on any path from the decode and hash entry points: each is a sync.Pool, a mutex, read-only after initialisation, assigned only by configuration functions outside the call graph (SetLogger...), or (b) accessed only between Lock/RLock and the matching unlock of a package mutex, writes only under Lock, lock state equal on all paths and free at every return (forward dataflow over the CFG of every function touching it); (c) pool discipline, per path: no path of a function returns more objects to a pool (explicit + deferred Put) than it took from it - a Put on a path without the matching Get would hand the pool an object that somebody else owns - and no pooled object is used after its Put (an instruction reachable behind an explicit Put, or a deferred call registered before the deferred Put, which therefore runs after it). Not covered: races inside dependencies, configuration concurrent with a decode, escape of pooled memory into results (see C04), equality of concurrent and sequential results beyond what C04 would give."},
